@@ -94,7 +94,7 @@ type numExpect struct {
 	inf         int      // \u00b11 when the expected result is an infinity
 	exact       *big.Rat // expected exact value (finite)
 	tolUlps     int64
-	tolBase     *big.Rat // value whose ulp is the tolerance unit
+	tolBase     *big.Rat   // value whose ulp is the tolerance unit
 	prec        uint       // when non-zero, overrides the precision the result is judged at
 	alts        []*big.Rat // alternative acceptable exact values (Modulo near an integer quotient)
 }
@@ -486,7 +486,7 @@ func runC02(c *Ctx) {
 	// documented signed infinity of x / |y| follows the sign of x alone
 	c.Unit(func(u *U) {
 		zeros := map[string]func() cty.Value{
-			"float -0":  func() cty.Value { return cty.NumberFloatVal(math.Copysign(0, -1)) },
+			"float -0": func() cty.Value { return cty.NumberFloatVal(math.Copysign(0, -1)) },
 			"0.Negate": func() cty.Value { return cty.Zero.Negate() },
 			"-5*0":     func() cty.Value { return cty.NumberIntVal(-5).Multiply(cty.Zero) },
 			"parse -0": func() cty.Value { return parseNum("-0") },
@@ -557,8 +557,8 @@ func c02Members(thorough bool) map[string][]cty.Value {
 		"n": {cty.NumberIntVal(0), cty.NumberIntVal(1), cty.NumberFloatVal(2.5), cty.NumberFloatVal(0.1), parseNum("0.1"), cty.NumberIntVal(1<<53 + 1), cty.NullVal(cty.Number),
 			// the same whole numbers held at different mantissa precisions
 			cty.NumberUIntVal(1 << 63), cty.NumberFloatVal(9223372036854775808), cty.NumberFloatVal(1e30), parseNum("1000000000000000019884624838656")},
-		"s": {cty.StringVal(""), cty.StringVal("a"), cty.StringVal("e\u0301"), cty.StringVal("\u00e9"), cty.StringVal("k1"), cty.NullVal(cty.String)},
-		"b": {cty.True, cty.False, cty.NullVal(cty.Bool)},
+		"s":    {cty.StringVal(""), cty.StringVal("a"), cty.StringVal("e\u0301"), cty.StringVal("\u00e9"), cty.StringVal("k1"), cty.NullVal(cty.String)},
+		"b":    {cty.True, cty.False, cty.NullVal(cty.Bool)},
 		"L(n)": {cty.ListValEmpty(cty.Number), cty.ListVal([]cty.Value{cty.Zero}), cty.ListVal([]cty.Value{cty.Zero, cty.NumberIntVal(1)}), cty.NullVal(cty.List(cty.Number))},
 		"T[s,n]": {
 			cty.TupleVal([]cty.Value{cty.StringVal("a"), cty.Zero}), cty.TupleVal([]cty.Value{cty.StringVal("a"), cty.NumberIntVal(1)}),
